@@ -285,6 +285,8 @@ def simulate(z, plan, profile=None):
     out.stats = st
     out.baseline_runs = bl.runs
     out.baseline_timeouts = bl.timeouts
+    if bl.skipped_for_time:
+        out.discarded = out.discarded or "baselines-over-time-budget"
     if v2 is not None and viol is None:
         if v2.oracle.startswith("baseline-"):
             # the sequential fault-free baseline plan itself crashed
